@@ -83,6 +83,10 @@ int64_t cmb_resourceguard_wait(struct cmb_resourceguard *rgp,
     cmv_last_wait_guard = gi;
     /* (1) guarantee at the suspension point */
     CMV_AT_YIELD();
+#ifdef CMV_MAX_WAITS
+    /* bounded-unwind groups: at most CMV_MAX_WAITS suspensions per call are followed further */
+    if (cmv_nwaits >= CMV_MAX_WAITS) __CPROVER_assume(0);
+#endif
     if (cmv_nwaits < 2u) cmv_nwaits++;      /* saturating: 0, 1, 2 = "two or more" */
     /* (2) environment */
     double adv = nondet_double();
